@@ -26,19 +26,29 @@ Definition nobs_eqb (a b : nobs) : bool :=
   res_eqb Bool.eqb (o_contains a) (o_contains b) &&
   res_eqb Nat.eqb (o_getitem a) (o_getitem b) &&
   res_eqb opt_str_eqb (o_parser a) (o_parser b) &&
-  res_eqb opt_nat_eqb (o_ran a) (o_ran b).
+  res_eqb opt_nat_eqb (o_ran a) (o_ran b) &&
+  res_eqb opt_nat_eqb (o_help a) (o_help b).
 
 Definition model_nobs (c : coll) (n : string) : nobs :=
   mkN (contains c n)
       (match getitem c n with Ok t => Ok (t_id t) | Err e => Err e end)
       (match parser_of c with Ok r => Ok (preg_primary r n) | Err e => Err e end)
-      (cli_run c n).
+      (cli_run c n)
+      (if String.eqb n "" then Ok None else cli_help c n).
 
 Definition row_eqb (a b : row) : bool :=
   Nat.eqb (r_depth a) (r_depth b) && String.eqb (r_name a) (r_name b) &&
   (* the order in which aliases are displayed is not part of the property *)
   list_eqb String.eqb (sort_by (fun x => x) (r_aliases a)) (sort_by (fun x => x) (r_aliases b)) &&
   opt_nat_eqb (r_task a) (r_task b).
+
+(** the "Default task: <name>" line printed under flat and nested listings, as a
+    pseudo-row of depth 1000 *)
+Definition default_trailer (c : coll) : list row :=
+  match c_default c with
+  | Some d => if String.eqb d "" then [] else [(1000, d, [], None)]
+  | None => []
+  end.
 
 (** [Program.run] builds the task parser ([parse_tasks]) before it looks at
     --list, so a tree whose contexts collide fails there; [list_tasks] refuses
@@ -50,8 +60,8 @@ Definition model_rows (c : coll) (view : nat) : result (list row) :=
       match task_names c with
       | [] => Err EOther
       | _ => Ok (match view with
-                 | 1 => flat_rows c []
-                 | 2 => nested_rows c []
+                 | 1 => flat_rows c [] ++ default_trailer c
+                 | 2 => nested_rows c [] ++ default_trailer c
                  | _ => json_rows c 0
                  end)
       end
